@@ -268,6 +268,30 @@ def gen_ring(rng, tier):
         # a run that takes `high` across 2^64 hangs in every blocking pop (F-C16): small budget
         env = sched_env(rng, budget=30000) if base >= (1 << 64) - 8 else sched_env(rng)
         cases.append({"args": args, "env": env})
+    # many producers on a tiny ring that stays full: 4-7 threads of try-pushes / try-pops on 2 or
+    # 4 slots, with a kernel thread parked inside trypush (between its loads and its claim /
+    # between claim and write) while the others lap it: a pusher's `low` goes stale by 1 .. size-1
+    # laps with the ring exactly full behind a claimed-but-unwritten slot
+    for _ in range(n_cases(tier, 150, 1500)):
+        k = rng.choice([1, 1, 2])
+        nt = rng.randrange(4, 8)
+        nxt = 1
+        threads = []
+        for t in range(nt):
+            ops = []
+            for _ in range(rng.randrange(3, 8)):
+                if rng.random() < 0.6:
+                    ops.append("p%d" % nxt)
+                    nxt += 1
+                else:
+                    ops.append("o")
+            threads.append(",".join(ops))
+        env = {"VR_SEED": rng.randrange(1, 1 << 30), "VR_SCHED": "rand", "VR_SWITCH": rng.choice([2, 3]), "VR_BUDGET": 200000,
+               "VR_STALL_FUNC": rng.choice(["lockfree_ring_buffer_trypush", "lockfree_ring_buffer_trypush", "lockfree_ring_buffer_trypop"]),
+               "VR_STALL_LEN": rng.choice([40, 120, 400]), "VR_STALL_DEN": rng.choice([1, 2, 3])}
+        if rng.random() < 0.4:
+            env = sched_env(rng)
+        cases.append({"args": [k, "|".join(threads), 0, tree_variant()], "env": env})
     return cases
 
 
